@@ -480,9 +480,6 @@ def run_message_data(case, remove):
     return md, None
 
 
-SKIP_ATTRS = ('message_type', 'message_class', 'params', 'messages', 'num_messages', '__metadata__')
-
-
 def oracle_removal(ctx, case, before, md, remove):
     """Stage D on MessageData.to_numpy: removing untimed entries removes the same positions from every time-dependent array."""
     name = case.cls.__name__
@@ -494,13 +491,15 @@ def oracle_removal(ctx, case, before, md, remove):
     if remove and isinstance(p1, np.ndarray) and p1.ndim == 1 and p1.dtype.kind == 'f' and np.any(np.isnan(p1)):
         valid = ~np.isnan(p1)
     trimmed = leading_unknown(case)
-    npos = n - trimmed
+    npos = len(p1) if isinstance(p1, np.ndarray) and p1.ndim == 1 else n - trimmed
     items = dict(before)
     items['message_index'] = np.arange(n, dtype=int)
     items['message_bytes'] = np.array([24 + 8 * i for i in range(n)], dtype=np.uint64)
     if trimmed:
         ctx.violation(SIG_TRIM, 'MessageData(%s): message_index has %d entries, p1_time %d (leading UNKNOWN-stage messages '
                       'trimmed): positions no longer correspond' % (name, n, npos), case.replay({'remove_nan_times': remove}))
+    if npos != n:
+        # (if this is not the documented trimming, the to_numpy oracle reports the length mismatch)
         del items['message_index'], items['message_bytes']
     for key, b in items.items():
         if key == '__metadata__':
@@ -798,11 +797,6 @@ def translate(ctx):
     for b in same_name_report(classes):
         ctx.notes.append('same-name check: ' + b)
     return classes
-
-
-def fallback_classes():
-    """when the sources can no longer be translated: oracle only, with an empty table per class"""
-    return []
 
 
 def search(ctx):
